@@ -62,6 +62,10 @@ def _build(name):
     if name == "comp_pump":
         m = jx.Compartment(); m.insert(Leak()); m.insert(CaL()); m.insert(pump_channel())
         return m
+    if name == "comp_cat":
+        # T-type calcium channel: several of its save_exp arguments exceed the clip at 20 for depolarised voltages
+        m = jx.Compartment(); m.insert(Leak()); m.insert(CaT())
+        return m
     if name == "comp_leak":
         m = jx.Compartment(); m.insert(Leak())
         return m
